@@ -547,3 +547,76 @@ func EntailedAt(f *ssa.Function, at *ssa.BasicBlock, v ssa.Value, bound int64, u
 	}
 	return true
 }
+
+// ProveLEAt decides a <= b at the start of block `at`, splitting on the incoming edges of the phis
+// that a and b are made of (all phis of one block take the same edge).  Facts: the branch conditions
+// dominating `at`, and for every split the conditions holding on the chosen incoming edge.
+func ProveLEAt(f *ssa.Function, at *ssa.BasicBlock, a, b ssa.Value) bool {
+	var rec func(subst map[*ssa.Phi]ssa.Value, edges [][2]*ssa.BasicBlock, depth int) bool
+	rec = func(subst map[*ssa.Phi]ssa.Value, edges [][2]*ssa.BasicBlock, depth int) bool {
+		resolve := func(v ssa.Value) ssa.Value {
+			for i := 0; i < 8; i++ {
+				p, ok := v.(*ssa.Phi)
+				if !ok {
+					return v
+				}
+				n, ok := subst[p]
+				if !ok {
+					return v
+				}
+				v = n
+			}
+			return v
+		}
+		env := &LinEnv{Fn: f, Subst: subst, Phis: map[*ssa.Phi]bool{}}
+		la, lb := env.Lin(a), env.Lin(b)
+		facts := env.FactsAt(at)
+		for _, e := range edges {
+			facts = append(facts, env.FactsOnEdge(e[0], e[1])...)
+		}
+		if Entails(facts, la, lb) {
+			return true
+		}
+		if depth >= 4 {
+			return false
+		}
+		var split *ssa.Phi
+		for _, v := range []ssa.Value{resolve(a), resolve(b)} {
+			if p, ok := v.(*ssa.Phi); ok {
+				split = p
+				break
+			}
+		}
+		if split == nil {
+			for p := range env.Phis {
+				if _, done := subst[p]; !done {
+					split = p
+					break
+				}
+			}
+		}
+		if split == nil {
+			return false
+		}
+		pb := split.Block()
+		for i, pred := range pb.Preds {
+			s2 := map[*ssa.Phi]ssa.Value{}
+			for k, v := range subst {
+				s2[k] = v
+			}
+			for _, in := range pb.Instrs {
+				q, ok := in.(*ssa.Phi)
+				if !ok {
+					break
+				}
+				s2[q] = q.Edges[i]
+			}
+			e2 := append(append([][2]*ssa.BasicBlock{}, edges...), [2]*ssa.BasicBlock{pred, pb})
+			if !rec(s2, e2, depth+1) {
+				return false
+			}
+		}
+		return true
+	}
+	return rec(map[*ssa.Phi]ssa.Value{}, nil, 0)
+}
